@@ -94,11 +94,13 @@ pub struct HState {
 pub struct Handler {
     pub sim: Sim,
     pub st: Arc<Mutex<HState>>,
+    /// notified on every handler entry (engine N: event-placed faults)
+    pub notify: Arc<tokio::sync::Notify>,
 }
 
 impl Handler {
     pub fn new(sim: &Sim) -> Handler {
-        Handler { sim: sim.clone(), st: Arc::new(Mutex::new(HState::default())) }
+        Handler { sim: sim.clone(), st: Arc::new(Mutex::new(HState::default())), notify: Arc::new(tokio::sync::Notify::new()) }
     }
     pub fn add_script(&self, id: u64, s: Script) {
         self.st.lock().unwrap().scripts.insert(id, s);
@@ -118,6 +120,7 @@ impl Handler {
             return Err(Status::failed_precondition("harness: request without sim-call metadata"));
         };
         st.entered.push(id);
+        self.notify.notify_waiters();
         self.sim.ev(|| format!("handler: enter {method} call {id}"));
         st.logs.insert(id, CallLog { method, md: Some(md.clone()), ..Default::default() });
         match st.scripts.get(&id) {
